@@ -61,6 +61,8 @@ func init() {
 	execs["c08.reqdec"] = execC08ReqDec
 	execs["c08.bocgo"] = execC08BocGo
 	execs["c08.client"] = execC08Client
+	execs["c08.pktalloc"] = execC08PktAlloc
+	execs["c08.limit"] = execC08Limit
 	execs["c08.packet"] = execC08Packet
 	execs["c08.vmstack"] = execC08Vmstack
 	execs["c08.methods"] = execC08Methods
@@ -1118,9 +1120,18 @@ type c08Mark struct {
 var c08Marks []c08Mark
 var c08MarkOn bool
 
+// sizes of the dictionaries of the tree being generated, by order of generation (nil: random);
+// with c08AllPresent every optional part is generated
+var c08MapSizes func(i int) int
+var c08MapSeq int
+var c08AllPresent bool
+
 func c08Choose(r *prng.R, d *c08Desc, n int) int {
 	if v, ok := c08Forced[d]; ok {
 		return v
+	}
+	if c08AllPresent && (d.K == "maybe" || d.K == "mref" || d.K == "refrawopt") {
+		return 1
 	}
 	return r.Intn(n)
 }
@@ -1345,7 +1356,12 @@ func c08GenValid(r *prng.R, d *c08Desc, t *c08Tree, depth int) {
 			cur = nx
 		}
 	case "hm", "hmaug":
-		c08GenMap(r, d, t, d.W, depth)
+		want := 0
+		if c08MapSizes != nil {
+			want = c08MapSizes(c08MapSeq)
+			c08MapSeq++
+		}
+		c08GenMap(r, d, t, d.W, depth, want)
 	case "addr":
 		switch r.Intn(4) {
 		case 0:
@@ -1457,10 +1473,19 @@ func c08LimWidth(m int) int {
 }
 
 // a dictionary node with `left` key bits still to be fixed
-func c08GenMap(r *prng.R, d *c08Desc, t *c08Tree, left int, depth int) {
+// want: number of entries (0: random)
+func c08GenMap(r *prng.R, d *c08Desc, t *c08Tree, left int, depth int, want int) {
 	l := left
 	if left > 0 && depth < 4 && r.Chance(45) {
 		l = r.Intn(left)
+	}
+	if want == 1 {
+		l = left
+	} else if want > 1 && left > 0 {
+		l = r.Intn(left)
+		if r.Chance(50) {
+			l = 0
+		}
 	}
 	lbl := c08RandBits(r, l)
 	switch r.Intn(3) {
@@ -1486,7 +1511,14 @@ func c08GenMap(r *prng.R, d *c08Desc, t *c08Tree, left int, depth int) {
 	if l < left {
 		for i := 0; i < 2; i++ {
 			ch := &c08Tree{}
-			c08GenMap(r, d, ch, left-l-1, depth+1)
+			w := 0
+			if want > 1 {
+				w = want / 2
+				if i == 1 {
+					w = want - want/2
+				}
+			}
+			c08GenMap(r, d, ch, left-l-1, depth+1, w)
 			t.Refs = append(t.Refs, ch)
 		}
 		if d.K == "hmaug" {
@@ -1656,6 +1688,16 @@ func c08ObservationClass(use string) string {
 	return strings.NewReplacer("*", "", " ", "", "|", "/").Replace(use)
 }
 
+// receivers whose one-argument helpers are called: the decoded proof / state types, not the
+// cell and bit-string primitives of package boc (their cursor API is another property's subject)
+func c08HelperPkg(t reflect.Type) bool {
+	if t.Kind() == reflect.Pointer {
+		t = t.Elem()
+	}
+	p := t.PkgPath()
+	return strings.HasSuffix(p, "/tlb") || strings.HasSuffix(p, "/ton") || strings.HasSuffix(p, "/liteapi") || p == "main"
+}
+
 func (u *c08User) methods(v reflect.Value) {
 	if !v.CanInterface() {
 		return
@@ -1683,6 +1725,36 @@ func (u *c08User) methods(v reflect.Value) {
 			}
 		case name == "Get" && ft.NumIn() == 1:
 			u.call(full, func() { fn.Call([]reflect.Value{reflect.Zero(ft.In(0))}) })
+		case ft.NumIn() == 1 && c08HelperPkg(t) && !strings.HasPrefix(name, "Put") && !strings.HasPrefix(name, "Set") && !strings.HasPrefix(name, "Unmarshal") &&
+			!strings.HasPrefix(name, "Marshal") && !strings.HasPrefix(name, "With"):
+			// helpers with one argument of a simple kind: Message.Hash(bool), VmTuple.RecursiveToSlice(int),
+			// ConfigParams.CloneKeepingSubsetOfKeys([]uint32), Compare / Equal(any) ...
+			var args []reflect.Value
+			switch a := ft.In(0); {
+			case a.Kind() == reflect.Bool:
+				args = []reflect.Value{reflect.ValueOf(false), reflect.ValueOf(true)}
+			case a.Kind() == reflect.Int:
+				for _, x := range []int{-1, 0, 1, 2, 255, 1 << 20} {
+					args = append(args, reflect.ValueOf(x))
+				}
+			case a.Kind() == reflect.Slice && a.Elem().Kind() == reflect.Uint32:
+				args = []reflect.Value{reflect.Zero(a), reflect.ValueOf([]uint32{0, 4, 34, 0xffffffff}).Convert(a)}
+			case a.Kind() == reflect.Interface && a.NumMethod() == 0:
+				args = []reflect.Value{reflect.Zero(a), v.Convert(v.Type())}
+			}
+			for _, x := range args {
+				x := x
+				if !x.IsValid() || !x.Type().AssignableTo(ft.In(0)) {
+					if x.IsValid() && ft.In(0).Kind() == reflect.Interface {
+						y := reflect.New(ft.In(0)).Elem()
+						y.Set(x)
+						x = y
+					} else {
+						continue
+					}
+				}
+				u.call(full, func() { fn.Call([]reflect.Value{x}) })
+			}
 		case ft.NumIn() == 0 && !strings.HasPrefix(name, "Put") && !strings.HasPrefix(name, "Set") && !strings.HasPrefix(name, "Reset") && name != "MarshalTL":
 			u.call(full, func() { fn.Call(nil) })
 		}
@@ -1952,6 +2024,10 @@ func c08Explore(c *Ctx, kind string, in sx.V, typeName string, weight int, extra
 		case strings.Contains(use, ".Unmarshal") || strings.Contains(use, "UnmarshalToTlbStruct"):
 			// the stack -> Go value mapping is part of decoding an answer: a panic there is a failure
 			c.Fail(kind, in, "tlb-map-panic-"+typeName, "mapping a soundly decoded value to a Go destination panics: "+use)
+		case kind == "c08.tlbgo" && !c08SxExotic(in.List[1]):
+			// every cell of the input is an ordinary cell and the decoder accepted it: the value is what a
+			// caller gets for well-formed data, and an exported helper method of it panics
+			c.Fail(kind, in, "tlb-helper-panic-"+typeName, "an exported helper method panics on a value decoded from a tree of ordinary cells: "+use)
 		default:
 			// the value is sound (e.g. the zero value left by a skipped pruned branch):
 			// what the accessor does with it is an API contract, counted as an observation
@@ -1979,6 +2055,18 @@ func c08Explore(c *Ctx, kind string, in sx.V, typeName string, weight int, extra
 	default:
 		c.Fail(kind, in, "tlb-harness-"+typeName, "unexpected child answer "+s)
 	}
+}
+
+func c08SxExotic(v sx.V) bool {
+	if v.List[0].I() != 0 {
+		return true
+	}
+	for _, r := range v.List[2].List {
+		if c08SxExotic(r) {
+			return true
+		}
+	}
+	return false
 }
 
 func c08ExploreTlb(c *Ctx, ti int, tree *c08Tree) {
@@ -2385,6 +2473,50 @@ func genC08Constructors(c *Ctx, r *prng.R, g *c08Desc, heavy bool, run func(tree
 	}
 }
 
+// sibling collections of different sizes: every optional part present, and the dictionaries of one value
+// with 1..3 entries, growing / shrinking / equal in the order in which the decoder meets them (helpers
+// that walk one dictionary and index the parallel slice of another depend on the relation of the sizes)
+func genC08Sizes(c *Ctx, r *prng.R, g *c08Desc, heavy bool, run func(tree *c08Tree, class string), name string) {
+	if !g.hasKind("hm", "hmaug") {
+		return
+	}
+	limit := c.Scale(6, 24)
+	if heavy {
+		limit = c.Scale(3, 10)
+	}
+	paths := append([]map[*c08Desc]int{{}}, c08ChoicePaths(g, limit)...)
+	for pi, path := range paths {
+		gen := func(sizes func(int) int) (*c08Tree, int) {
+			c08Forced, c08AllPresent, c08MapSizes, c08MapSeq = path, true, sizes, 0
+			t := &c08Tree{}
+			c08GenValid(r.Fork(uint64(7000+pi)), g, t, 0)
+			n := c08MapSeq
+			c08Forced, c08AllPresent, c08MapSizes, c08MapSeq = nil, false, nil, 0
+			return t, n
+		}
+		_, total := gen(func(int) int { return 1 })
+		if total == 0 {
+			continue
+		}
+		up := func(i int) int {
+			if total < 2 {
+				return 2
+			}
+			if i >= total {
+				i = total - 1
+			}
+			return 1 + 2*i/(total-1)
+		}
+		up2 := func(i int) int { return (up(i) + 2) / 2 } // 1, 2, 2
+		for k, sizes := range []func(int) int{up, func(i int) int { return 4 - up(i) }, func(int) int { return 2 }, up2, func(i int) int { return 3 - up2(i) }} {
+			t, _ := gen(sizes)
+			if t.fits() {
+				run(t, name+"|"+[]string{"sizes-up", "sizes-down", "sizes-equal", "sizes-up", "sizes-down"}[k])
+			}
+		}
+	}
+}
+
 func genC08TLB(c *Ctx) {
 	for ti, t := range c08TlbTypes {
 		r := c.R.Fork(uint64(5000 + ti))
@@ -2397,7 +2529,9 @@ func genC08TLB(c *Ctx) {
 			// coverage class: type x {valid, exotic, malformed}
 			if i := strings.LastIndex(class, "|"); i >= 0 {
 				switch fam := class[i+1:]; {
-				case fam == "valid":
+				case fam == "valid", fam == "ctor":
+				case strings.HasPrefix(fam, "sizes"):
+					class = class[:i] + "|sizes"
 				case strings.HasPrefix(fam, "exotic"):
 					class = class[:i] + "|exotic"
 				default:
@@ -2421,6 +2555,10 @@ func genC08TLB(c *Ctx) {
 				c08ExploreTlb(c, ti, tree)
 			} else {
 				out = c.Emit("c08.tlb", in, class)
+				if strings.HasSuffix(class, "|valid") || strings.HasSuffix(class, "|ctor") || strings.HasSuffix(class, "|sizes") {
+					// the exported helper methods of a decoded value (use oracle) for the fixed-layout types too
+					c08ExploreTlb(c, ti, tree)
+				}
 			}
 			if o := out.String(); strings.Contains(o, "'panic") || strings.Contains(o, "'crash") || strings.Contains(o, "'timeout") {
 				c.Fail("c08.tlb", in, "tlb-panic", "tlb.Unmarshal panicked / crashed: "+o)
@@ -2446,6 +2584,7 @@ func genC08TLB(c *Ctx) {
 		}
 		if g != nil {
 			genC08Constructors(c, r, g, heavy, run, name)
+			genC08Sizes(c, r, g, heavy, run, name)
 		}
 		for k := 0; k < n; k++ {
 			var base *c08Tree
@@ -2672,6 +2811,119 @@ func execC08BocGo(in sx.V) sx.V {
 		return err
 	})
 	return sx.L(sx.A(class), sx.N(a))
+}
+
+// c08.pktalloc: a stream that is little more than a size field -> (outcome 'announced|'small):
+// did ParsePacket allocate the announced length (reported for lengths of at least 256 KiB)
+func execC08PktAlloc(in sx.V) sx.V {
+	stream := in.Bytes
+	var err error
+	runtime.GC()
+	var m0, m1 runtime.MemStats
+	runtime.ReadMemStats(&m0)
+	_, err = liteclient.ParsePacket(bytes.NewReader(stream), c08Identity{})
+	runtime.ReadMemStats(&m1)
+	class := "ok"
+	if err != nil {
+		class = "err"
+	}
+	alloc := "small"
+	if len(stream) >= 4 {
+		if n := uint64(binary.LittleEndian.Uint32(stream)); n >= 262144 && m1.TotalAlloc-m0.TotalAlloc >= n {
+			alloc = "announced"
+		}
+	}
+	return sx.L(sx.A(class), sx.A(alloc))
+}
+
+// c08.limit: the numeric limits that the implementation compares untrusted lengths with, read from
+// its source text (the file is found through the program counter of a function of the package)
+var c08LimitSources = map[string]struct {
+	fn   any
+	file string
+	re   string
+}{
+	"packet-min":       {liteclient.ParsePacket, "adnl.go", `length < ([0-9<]+) \|\| length > [0-9<]+`},
+	"packet-max":       {liteclient.ParsePacket, "adnl.go", `length < [0-9<]+ \|\| length > ([0-9<]+)`},
+	"server-nonce-max": {liteclient.ParsePacket, "connection.go", `MaxServerNonceSize\s*=\s*([0-9<]+)`},
+	"tl-prealloc-max":  {tl.EncodeLength, "decoder.go", `const maxPrealloc\s*=\s*([0-9<]+)`},
+}
+
+func execC08Limit(in sx.V) sx.V {
+	src, ok := c08LimitSources[in.Atom]
+	if !ok {
+		return sx.A("unknown-limit")
+	}
+	f := runtime.FuncForPC(reflect.ValueOf(src.fn).Pointer())
+	if f == nil {
+		return sx.A("no-source")
+	}
+	file, _ := f.FileLine(f.Entry())
+	text, err := os.ReadFile(filepath.Join(filepath.Dir(file), src.file))
+	if err != nil {
+		return sx.A("no-source")
+	}
+	ms := regexp.MustCompile(src.re).FindAllSubmatch(text, -1)
+	if len(ms) != 1 {
+		return sx.L(sx.A("pattern-matches"), sx.Nat(len(ms)))
+	}
+	// a literal or a shift of literals
+	parts := strings.Split(string(ms[0][1]), "<<")
+	v, err := strconv.ParseUint(parts[0], 10, 64)
+	if err != nil {
+		return sx.A("not-a-literal")
+	}
+	for _, p := range parts[1:] {
+		k, err := strconv.ParseUint(p, 10, 64)
+		if err != nil {
+			return sx.A("not-a-literal")
+		}
+		v <<= k
+	}
+	return sx.N(v)
+}
+
+// limit-1, limit, limit+1 and the midpoint to the next power of two, for every limit; the announced
+// lengths go to ParsePacket as a size field with little data behind it
+func genC08Limits(c *Ctx) {
+	r := c.R.Fork(9990)
+	var names []string
+	for n := range c08LimitSources {
+		names = append(names, n)
+	}
+	sort.Strings(names)
+	var probes []uint64
+	for _, n := range names {
+		out := c.Emit("c08.limit", sx.A(n), "limit|"+n)
+		if out.K != sx.KN {
+			c.Fail("c08.limit", sx.A(n), "limit-unreadable-"+n, "the limit cannot be read from the source: "+out.String())
+			continue
+		}
+		l := out.U64()
+		p2 := uint64(1)
+		for p2 <= l {
+			p2 <<= 1
+		}
+		probes = append(probes, l-1, l, l+1, l+(p2-l)/2, p2-1, p2, p2+1, l/2, 2*l, 3*l/2)
+	}
+	probes = append(probes, 0, 1, 63, 65, 262143, 262144, 262145, 1<<20, 1<<24, 1<<31-1, 1<<31, 1<<32-1)
+	for k := 0; k < c.Scale(16, 200); k++ {
+		probes = append(probes, uint64(r.Intn(16<<20)))
+	}
+	for _, n := range probes {
+		if n >= 1<<32 {
+			continue
+		}
+		for _, extra := range []int{0, 3, 64} {
+			st := binary.LittleEndian.AppendUint32(nil, uint32(n))
+			st = append(st, r.Bytes(extra)...)
+			in := sx.Bytes(st)
+			out := c.EmitGuarded("c08.pktalloc", in, "pktalloc")
+			if o := out.String(); strings.Contains(o, "'panic") || strings.Contains(o, "'crash") || strings.Contains(o, "'timeout") {
+				c.Fail("c08.pktalloc", in, "packet-alloc", "ParsePacket panicked / exhausted memory on a size field: "+o)
+			}
+		}
+	}
 }
 
 // ---- liteapi.Client methods on lite-server answers: a fake lite server over net.Pipe answers
@@ -3796,6 +4048,7 @@ func genC08(c *Ctx) {
 	genC08ReqDec(c)
 	genC08BocHelpers(c)
 	genC08Client(c)
+	genC08Limits(c)
 	genC08Readers(c)
 	genC08Resolver(c)
 	genC08TL(c)
